@@ -250,6 +250,7 @@ func genC16Tree(r *Rng) (*Scenario, *Tree, []Op) {
 		File{Path: t.path("branchy"), Data: branchySrc, Role: "page"},
 		File{Path: t.path("components/three"), Data: "<i>[{{ alpha }}|{{ beta }}|{{ gamma }}]</i>", Role: "component"},
 		File{Path: t.path("threeargs"), Data: "@component(\"components/three\", {alpha: pa, beta: pb, gamma: pc})", Role: "page"},
+		File{Path: t.path("dynpage"), Data: "<p>{{ u.name }}</p>", Role: "page"},
 		File{Path: t.path("latepage"), Data: "<p>{{ s0.whisper(1) }}</p>", Role: "page"},
 		// one component used three times: without slots, with a slot whose body may fail, without again
 		File{Path: t.path("slotfail"), Data: "@component(\"components/card\", {title: \"plain\", n: 0})\n<hr>\n@component(\"components/card\", {title: \"filled\", n: 1})\n@slot<i>{{ 10 / zf }}</i>@end\n@slot(\"foot\")<b>{{ 20 / zg }}</b>@end\n@end\n<hr>\n@component(\"components/card\", {title: \"last\", n: 2})\n@slot(\"foot\")<u>tail</u>@end\n@end\n", Role: "page"},
